@@ -735,3 +735,432 @@ Qed.
 
 Example Z_to_dec_ex : Z_to_dec 1204 = B "1204" /\ Z_to_dec (-37) = B "-37" /\ small_int 1204 /\ small_int (-37).
 Proof. repeat split; try (vm_compute; reflexivity); apply small_int_bound; vm_compute; reflexivity. Qed.
+
+(** ** 3b. the round trip *)
+
+Lemma key_tail_ascii : forall b, key_tail_char b = true -> ascii_byte b.
+Proof. intros b. unfold ascii_byte. destruct b; vm_compute; intros H; try discriminate H; reflexivity. Qed.
+Lemma val_char_ascii : forall b, val_char b = true -> ascii_byte b.
+Proof. intros b. unfold ascii_byte. destruct b; vm_compute; intros H; try discriminate H; reflexivity. Qed.
+
+Lemma spec_key_ascii : forall k, HeaderFacts.spec_key k -> Forall ascii_byte k.
+Proof.
+  intros k H. apply HeaderFacts.spec_key_model in H. destruct H as [H _].
+  eapply Forall_impl; [|exact H]. apply key_tail_ascii.
+Qed.
+Lemma spec_val_ascii : forall v, HeaderFacts.spec_val v -> Forall ascii_byte v.
+Proof.
+  intros v [_ H]. eapply Forall_impl; [|exact H]. intros b Hb. apply val_char_ascii.
+  apply HeaderFacts.spec_val_char_iff. exact Hb.
+Qed.
+
+(* option values covered by the round trip: None (omitted), int, str in the value grammar *)
+Inductive good_value : wv -> Prop :=
+| GV_none : good_value WNone
+| GV_int z : small_int z -> good_value (WInt z)
+| GV_str vb : HeaderFacts.spec_val vb -> good_value (WStr (ascii_text vb)).
+Definition good_opt (kv : bytes * wv) : Prop := HeaderFacts.spec_key (fst kv) /\ good_value (snd kv).
+
+(* the bytes a value is rendered as, and what the reader reports for them *)
+Definition val_bytes (v : wv) : bytes :=
+  match v with WInt z => Z_to_dec z | WStr t => map n_byte t | _ => [] end.
+Definition spec_pair_of (kv : bytes * wv) : bytes * bytes := (fst kv, val_bytes (snd kv)).
+Definition read_back (v : wv) : option pv :=
+  match v with
+  | WInt z => Some (VInt z)
+  | WStr t => Some (convert_value (map n_byte t))
+  | _ => None
+  end.
+
+Lemma good_pair : forall kv, good_opt kv -> is_present kv = true ->
+  tpair_of kv (ascii_text (HeaderFacts.render_pair (spec_pair_of kv))) /\
+  HeaderFacts.spec_pair (spec_pair_of kv) /\
+  Forall ascii_byte (HeaderFacts.render_pair (spec_pair_of kv)) /\
+  read_back (snd kv) = Some (convert_value (val_bytes (snd kv))).
+Proof.
+  intros [k v] [Hk Hv] Hp. cbn [fst snd] in *. unfold spec_pair_of, HeaderFacts.render_pair. cbn [fst snd].
+  assert (Hgen : forall vb, fmt_value v = Ok (ascii_text vb) -> HeaderFacts.spec_val vb ->
+            tpair_of (k, v) (ascii_text (k ++ B "=" ++ vb)) /\ HeaderFacts.spec_pair (k, vb) /\
+            Forall ascii_byte (k ++ B "=" ++ vb)).
+  { intros vb Hf Hs. split; [|split].
+    - exists (ascii_text vb). split; [exact Hf|]. unfold ascii_text. rewrite !map_app. reflexivity.
+    - split; assumption.
+    - apply Forall_app. split; [apply spec_key_ascii; exact Hk|]. apply Forall_app. split.
+      + constructor; [vm_compute; reflexivity|constructor].
+      + apply spec_val_ascii. exact Hs. }
+  destruct Hv as [|z Hz|vb Hvb]; [discriminate Hp| |]; cbn [val_bytes read_back].
+  - destruct (Hgen (Z_to_dec z) eq_refl (Z_to_dec_spec_val z)) as (H1 & H2 & H3).
+    split; [exact H1|]. split; [exact H2|]. split; [exact H3|].
+    rewrite convert_value_Z_to_dec by assumption. reflexivity.
+  - rewrite map_n_byte_ascii_text. destruct (Hgen vb eq_refl Hvb) as (H1 & H2 & H3).
+    split; [exact H1|]. split; [exact H2|]. split; [exact H3|reflexivity].
+Qed.
+
+Lemma Forall2_map_self {A C} (R : A -> C -> Prop) (f : A -> C) : forall l,
+  Forall (fun a => R a (f a)) l -> Forall2 R l (map f l).
+Proof. induction l as [|a l IH]; intros H; [constructor|]. inversion H; subst. constructor; auto. Qed.
+
+Lemma NoDup_map_filter {A K} (g : A -> K) (f : A -> bool) : forall l, NoDup (map g l) -> NoDup (map g (filter f l)).
+Proof.
+  induction l as [|a l IH]; intros H; [constructor|]. cbn [map] in H. inversion H as [|? ? Hn Hnd]; subst.
+  cbn [filter]. destruct (f a); [|apply IH; exact Hnd]. cbn [map]. constructor; [|apply IH; exact Hnd].
+  intros Hin. apply Hn. apply in_map_iff in Hin. destruct Hin as (x & E & Hx). apply filter_In in Hx.
+  apply in_map_iff. exists x. tauto.
+Qed.
+
+Lemma nodup_assoc_get {V} : forall (l : list (bytes * V)) k v, NoDup (map fst l) -> In (k, v) l ->
+  assoc_get beq k l = Some v.
+Proof.
+  induction l as [|[k' v'] l IH]; intros k v Hnd Hin; [contradiction|].
+  cbn [map fst] in Hnd. inversion Hnd as [|? ? Hn Hnd']; subst. cbn [assoc_get].
+  destruct Hin as [E|Hin].
+  - inversion E; subst. rewrite (proj2 (HeaderFacts.beq_spec k k) eq_refl). reflexivity.
+  - destruct (beq k k') eqn:Eb; [|apply IH; assumption].
+    apply HeaderFacts.beq_spec in Eb. subst k'. exfalso. apply Hn.
+    apply in_map_iff. exists (k, v). split; [reflexivity|exact Hin].
+Qed.
+
+Lemma assoc_get_none_notin {V} : forall (l : list (bytes * V)) k, assoc_get beq k l = None -> ~ In k (map fst l).
+Proof.
+  induction l as [|[k' v'] l IH]; intros k H Hin; [contradiction|]. cbn [assoc_get] in H.
+  destruct (beq k k') eqn:Eb; [discriminate|]. destruct Hin as [E|Hin].
+  - cbn [fst] in E. subst k'. rewrite (proj2 (HeaderFacts.beq_spec k k) eq_refl) in Eb. discriminate.
+  - exact (IH k H Hin).
+Qed.
+
+Theorem C02_header_round_trip : forall valid dots name opts,
+  dots <= 3 -> In name HeaderFacts.spec_names -> In (build_id dots name) valid ->
+  NoDup (map fst opts) -> Forall good_opt opts ->
+  exists line ps opts',
+    render_header (build_id dots name) opts = Ok (line ++ [x0a]) /\
+    ps = map spec_pair_of (present (sort_opts opts)) /\
+    HeaderFacts.spec_header line dots name ps /\
+    parse_header valid line = HOk dots name (build_id dots name) opts' /\
+    forall k, assoc_get beq k opts' = match assoc_get beq k opts with Some v => read_back v | None => None end.
+Proof.
+  intros valid dots name opts Hd Hname Hvalid Hnd Hgood.
+  set (so := present (sort_opts opts)). set (ps := map spec_pair_of so).
+  assert (Hso_in : forall kv, In kv so <-> In kv opts /\ is_present kv = true).
+  { intros kv. unfold so, present. rewrite filter_In. split; intros [H1 H2]; split; try assumption.
+    - apply (Permutation_in _ (Permutation_sym (sort_opts_perm opts))). exact H1.
+    - apply (Permutation_in _ (sort_opts_perm opts)). exact H1. }
+  assert (Hso_good : forall kv, In kv so -> good_opt kv /\ is_present kv = true).
+  { intros kv Hin. apply Hso_in in Hin. destruct Hin as [Hin Hp]. split; [|exact Hp].
+    rewrite Forall_forall in Hgood. apply Hgood. exact Hin. }
+  assert (Hpairs : Forall HeaderFacts.spec_pair ps).
+  { unfold ps. apply Forall_forall. intros p Hp. apply in_map_iff in Hp. destruct Hp as (kv & <- & Hkv).
+    destruct (Hso_good kv Hkv) as [Hg Hp]. apply (good_pair kv Hg Hp). }
+  assert (Hrender : render_pairs (sort_opts opts)
+                    = Ok (map (fun kv => ascii_text (HeaderFacts.render_pair (spec_pair_of kv))) so)).
+  { apply render_pairs_complete. fold so. apply Forall2_map_self. apply Forall_forall. intros kv Hkv.
+    destruct (Hso_good kv Hkv) as [Hg Hp]. apply (good_pair kv Hg Hp). }
+  set (J := join (B ", ") (map HeaderFacts.render_pair ps)).
+  assert (HJ : join (ascii_text (B ", ")) (map (fun kv => ascii_text (HeaderFacts.render_pair (spec_pair_of kv))) so)
+               = ascii_text J).
+  { unfold J, ps, ascii_text. rewrite map_join, !map_map. reflexivity. }
+  assert (HJascii : Forall ascii_byte J).
+  { unfold J. apply Forall_join.
+    - constructor; [vm_compute; reflexivity|]. constructor; [vm_compute; reflexivity|constructor].
+    - unfold ps. rewrite map_map. apply Forall_forall. intros q Hq. apply in_map_iff in Hq.
+      destruct Hq as (kv & <- & Hkv). destruct (Hso_good kv Hkv) as [Hg Hp]. apply (good_pair kv Hg Hp). }
+  exists (HeaderFacts.render_header dots name ps), ps, (HeaderFacts.opts_of convert_value ps).
+  split; [|split; [reflexivity|split; [|split]]].
+  - unfold render_header. rewrite Hrender. cbn [bind]. rewrite HJ.
+    unfold HeaderFacts.render_header, build_id.
+    destruct ps as [|p ps'] eqn:Eps.
+    + unfold J. cbn [map join ascii_text nonempty]. rewrite <- !app_assoc. reflexivity.
+    + assert (HJne : J <> []).
+      { unfold J. intros E. cbn [map] in E. apply join_nil_head in E.
+        unfold HeaderFacts.render_pair in E. inversion Hpairs as [|? ? [Hk _] _]; subst.
+        destruct Hk as (c & t & Hk & _). rewrite Hk in E. discriminate E. }
+      assert (Hne : nonempty (ascii_text J) = true) by (destruct J; [congruence|reflexivity]).
+      rewrite Hne. unfold encode_ascii. rewrite (enc_ascii_complete J HJascii). cbn [bind].
+      fold J. change (B ": ") with (B ":" ++ B " "). rewrite <- !app_assoc. reflexivity.
+  - split; [exact Hd|]. split; [exact Hname|]. split; [exact Hpairs|reflexivity].
+  - apply HeaderFacts.C11_complete; [|exact Hvalid].
+    split; [exact Hd|]. split; [exact Hname|]. split; [exact Hpairs|reflexivity].
+  - intros k. rewrite HeaderFacts.get_opts_of.
+    assert (Hnd_so : NoDup (map fst so)).
+    { unfold so, present. apply NoDup_map_filter.
+      eapply Permutation_NoDup; [|exact Hnd]. apply Permutation_map. apply sort_opts_perm. }
+    assert (Hnd_ps : NoDup (map fst ps)).
+    { unfold ps. rewrite map_map. cbn [spec_pair_of fst]. exact Hnd_so. }
+    destruct (assoc_get beq k opts) as [v|] eqn:Eg.
+    + apply WriterFacts.assoc_get_In in Eg.
+      destruct (is_present (k, v)) eqn:Ep.
+      * assert (Hin : In (k, v) so) by (apply Hso_in; split; assumption).
+        rewrite (HeaderFacts.last_val_nodup k (val_bytes v) ps Hnd_ps).
+        -- cbn [option_map]. destruct (Hso_good _ Hin) as [Hg _].
+           destruct (good_pair _ Hg Ep) as (_ & _ & _ & Hrb). cbn [snd] in Hrb. symmetry. exact Hrb.
+        -- unfold ps. apply in_map_iff. exists (k, v). split; [reflexivity|exact Hin].
+      * assert (Ev : v = WNone) by (destruct v; try discriminate Ep; reflexivity). subst v. cbn [read_back].
+        rewrite HeaderFacts.last_val_none; [reflexivity|].
+        unfold ps. rewrite map_map. cbn [spec_pair_of fst]. intros Hin. apply in_map_iff in Hin.
+        destruct Hin as ([k' v'] & E & Hin). cbn [fst] in E. subst k'. apply Hso_in in Hin. destruct Hin as [Hin Hp].
+        assert (v' = WNone).
+        { assert (E1 := nodup_assoc_get opts k v' Hnd Hin). assert (E2 := nodup_assoc_get opts k WNone Hnd Eg). congruence. }
+        subst v'. discriminate Hp.
+    + apply assoc_get_none_notin in Eg. rewrite HeaderFacts.last_val_none; [reflexivity|].
+      unfold ps. rewrite map_map. cbn [spec_pair_of fst]. intros Hin. apply Eg.
+      apply in_map_iff in Hin. destruct Hin as (kv & E & Hin). apply Hso_in in Hin.
+      apply in_map_iff. exists kv. tauto.
+Qed.
+
+(* string options that are not of integer form are reported verbatim *)
+Lemma convert_value_not_int : forall v, int_ok v = false -> convert_value v = VStr v.
+Proof. intros v H. unfold convert_value. rewrite H. reflexivity. Qed.
+
+(* the option keys the writer itself uses, and the values of its choice sets (generated tables) *)
+Definition writer_keys : list bytes :=
+  [B "encoding"; B "indent"; B "length"; B "line_endings"; B "mimetype"; B "format"; B "type"; B "version"].
+Definition choice_values : list bytes :=
+  GenText.line_endings_values ++ GenText.mimetypes ++ GenText.meta_formats ++ GenText.diff_types ++ GenText.versions.
+
+Lemma writer_keys_b : forallb key_ok writer_keys = true.
+Proof. vm_compute. reflexivity. Qed.
+Lemma choice_values_b : forallb (fun v => val_ok v && negb (int_ok v)) choice_values = true.
+Proof. vm_compute. reflexivity. Qed.
+
+Theorem writer_keys_spec : forall k, In k writer_keys -> HeaderFacts.spec_key k.
+Proof.
+  intros k H. apply HeaderFacts.spec_key_iff. pose proof writer_keys_b as Hb. rewrite forallb_forall in Hb. auto.
+Qed.
+
+Theorem choice_values_spec : forall v, In v choice_values ->
+  HeaderFacts.spec_val v /\ good_value (WStr (ascii_text v)) /\ read_back (WStr (ascii_text v)) = Some (VStr v).
+Proof.
+  intros v H. pose proof choice_values_b as Hb. rewrite forallb_forall in Hb. specialize (Hb v H).
+  apply andb_true_iff in Hb. destruct Hb as [H1 H2]. apply HeaderFacts.spec_val_iff in H1.
+  split; [exact H1|]. split; [constructor; exact H1|].
+  cbn [read_back]. rewrite map_n_byte_ascii_text. rewrite convert_value_not_int; [reflexivity|].
+  destruct (int_ok v); [discriminate H2|reflexivity].
+Qed.
+
+(* ================================================================================================ *)
+(** * 5./6. Content preparation: encode, then terminate with the BOM-free encoded newline, then indent *)
+
+(* the stages of _prepare_content, as separate functions (the unfolding lemma below ties them to the model) *)
+Definition eff_enc (s : wstate) (encoding : wv) (inherit : bool) : res wv :=
+  if negb (wv_truthy encoding) && inherit then cur_encoding s else Ok encoding.
+Definition enc1_name (encoding1 : wv) : option bytes :=
+  match encoding1 with WStr e => c_enc ascii e | _ => None end.
+Definition declared_newline (le : wv) : option text :=
+  match le with
+  | WStr t => match c_enc ascii t with Some le => assoc_get beq le GenText.newline_formats | None => None end
+  | _ => None
+  end.
+Definition newline_encoding_of (encoding1 : wv) : wv :=
+  if wv_truthy encoding1 then encoding1 else WStr (ascii_text (B "ascii")).
+(* the newline as str (inl) or bytes (inr), and the line_endings value that goes into the header *)
+Definition choose_newline (content : wcontent) (le encoding1 : wv) : res ((text + bytes) * wv) :=
+  match declared_newline le with
+  | None =>
+      match content with
+      | CText t => let (le0, nl) := guess_line_endings_text t in Ok (inl nl, WStr (ascii_text le0))
+      | CBytes b =>
+          do en <- enc_name (newline_encoding_of encoding1);
+          do p <- guess_line_endings_bytes b en;
+          Ok (inr (snd p), WStr (ascii_text (fst p)))
+      end
+  | Some nl =>
+      match content with
+      | CBytes _ => do nb <- encode_dyn nl (newline_encoding_of encoding1); Ok (inr nb, le)
+      | CText _ => Ok (inl nl, le)
+      end
+  end.
+Definition encode_newline (nl0 : text + bytes) (encoding1 : wv) : res bytes :=
+  match nl0 with inl t => encode_dyn t encoding1 | inr b => Ok b end.
+Definition encode_content (content : wcontent) (encoding1 : wv) : res bytes :=
+  match content with CText t => encode_dyn t encoding1 | CBytes b => Ok b end.
+(* content += newline unless it already ends with it *)
+Definition add_newline (newline content_b : bytes) : bytes :=
+  if bends newline content_b then content_b else content_b ++ newline.
+Definition indent_bytes (indent : wv) : res bytes :=
+  match indent with
+  | WInt z => Ok (repeat_b x20 (Z.to_nat z))
+  | WBool true => Ok [x20]
+  | _ => Err EType
+  end.
+(* indentation works on the ENCODED, newline-terminated content, split on the ENCODED newline *)
+Definition finish_content (content1 newline : bytes) (indent : wv) : res bytes :=
+  if wv_truthy indent then
+    do indent_str <- indent_bytes indent;
+    do lines <- split_lines content1 newline true;
+    Ok (concat (map (fun l => indent_str ++ l) lines))
+  else Ok content1.
+
+Ltac step_bind H :=
+  match type of H with
+  | context [bind ?X _] => let E := fresh "E" in destruct X eqn:E; cbn [bind] in H; [|discriminate H]
+  end.
+
+Theorem prepare_content_unfold : forall s content indent le enc inherit body le_out,
+  prepare_content s content indent le enc inherit = Ok (body, le_out) ->
+  exists encoding1 nl0 newline_b content_b,
+    eff_enc s enc inherit = Ok encoding1 /\
+    choose_newline content le encoding1 = Ok (nl0, le_out) /\
+    encode_newline nl0 encoding1 = Ok newline_b /\
+    encode_content content encoding1 = Ok content_b /\
+    (match content with CText t => is_nil t | CBytes b => is_nil b end) = false /\
+    finish_content (add_newline (strip_bom newline_b (enc1_name encoding1)) content_b)
+                   (strip_bom newline_b (enc1_name encoding1)) indent = Ok body.
+Proof.
+  intros s content indent le enc inherit body le_out H. unfold prepare_content in H.
+  destruct (match content with CText t => is_nil t | CBytes b => is_nil b end) eqn:Eempty; [discriminate H|].
+  step_bind H. destruct (negb a); [discriminate H|].
+  step_bind H. rename a0 into encoding1.
+  step_bind H. destruct a0 as [nl0 le_out'].
+  step_bind H. rename a0 into newline_b.
+  step_bind H. rename a0 into content_b.
+  exists encoding1, nl0, newline_b, content_b.
+  assert (Hle : le_out' = le_out /\
+                finish_content (add_newline (strip_bom newline_b (enc1_name encoding1)) content_b)
+                               (strip_bom newline_b (enc1_name encoding1)) indent = Ok body).
+  { unfold finish_content, add_newline, enc1_name, indent_bytes.
+    destruct (wv_truthy indent).
+    - step_bind H. step_bind H. inversion H; subst. split; reflexivity.
+    - inversion H; subst. split; reflexivity. }
+  destruct Hle as [-> Hfin].
+  split; [exact E0|]. split; [exact E1|]. split; [exact E2|]. split; [exact E3|]. split; [reflexivity|exact Hfin].
+Qed.
+
+Lemma add_newline_ends : forall nl c, bends nl (add_newline nl c) = true.
+Proof.
+  intros nl c. unfold add_newline. destruct (bends nl c) eqn:E; [exact E|].
+  apply TextFacts.bends_spec. exists c. reflexivity.
+Qed.
+
+Lemma split_lines_ok_ne : forall d nl k ls, split_lines d nl k = Ok ls -> d <> [] /\ nl <> [].
+Proof.
+  intros d nl k ls H. unfold split_lines, split_lines_g in H.
+  destruct d; [discriminate H|]. destruct nl; [discriminate H|]. split; discriminate.
+Qed.
+
+(* the kept-ends split of data that ends with the newline: every line ends with the newline, and there is one *)
+Lemma split_lines_terminated : forall d nl ls, bends nl d = true -> split_lines d nl true = Ok ls ->
+  exists init p, ls = map (fun l => l ++ nl) (init ++ [p]).
+Proof.
+  intros d nl ls Hb H. destruct (split_lines_ok_ne _ _ _ _ H) as [Hd Hnl].
+  destruct (TextFacts.split_spec byte_eqb TextFacts.byte_eqb_spec nl d Hnl)
+    as (init & lst & Es & Hc & _ & H0 & _ & _ & _).
+  unfold split_lines in H. rewrite (TextFacts.split_lines_keep byte_eqb d nl init lst Hd Hnl Es) in H.
+  unfold bends in Hb. rewrite Hb in H. inversion H; subst ls. clear H.
+  destruct init as [|p0 init0] eqn:Ei.
+  - exfalso. cbn [map concat app] in Hc. subst lst.
+    pose proof (TextFacts.suffixb_occurrences byte_eqb TextFacts.byte_eqb_spec nl d Hnl Hb). lia.
+  - assert (Hne : p0 :: init0 <> []) by discriminate.
+    destruct (exists_last Hne) as (init1 & p & ->). exists init1, p. reflexivity.
+Qed.
+
+Lemma finish_content_ends : forall c1 nl indent body, bends nl c1 = true ->
+  finish_content c1 nl indent = Ok body -> bends nl body = true.
+Proof.
+  intros c1 nl indent body Hb H. unfold finish_content in H. destruct (wv_truthy indent).
+  - step_bind H. step_bind H. inversion H; subst body. clear H.
+    destruct (split_lines_terminated _ _ _ Hb E0) as (init & p & ->).
+    apply TextFacts.bends_spec. rewrite !map_app, concat_app. cbn [map concat].
+    exists (concat (map (fun l => a ++ l) (map (fun l => l ++ nl) init)) ++ a ++ p).
+    rewrite app_nil_r, <- !app_assoc. reflexivity.
+  - inversion H; subst. exact Hb.
+Qed.
+
+(* 5. the prepared content ends with the newline the function computed: the declared / detected newline,
+   encoded in the section's effective encoding, BOM stripped *)
+Theorem C02_content_ends_with_newline : forall s content indent le enc inherit body le_out,
+  prepare_content s content indent le enc inherit = Ok (body, le_out) ->
+  exists encoding1 nl0 newline_b,
+    eff_enc s enc inherit = Ok encoding1 /\
+    choose_newline content le encoding1 = Ok (nl0, le_out) /\
+    encode_newline nl0 encoding1 = Ok newline_b /\
+    bends (strip_bom newline_b (enc1_name encoding1)) body = true.
+Proof.
+  intros s content indent le enc inherit body le_out H.
+  apply prepare_content_unfold in H. destruct H as (e1 & nl0 & nb & cb & H1 & H2 & H3 & _ & _ & H6).
+  exists e1, nl0, nb. repeat (split; [assumption|]).
+  eapply finish_content_ends; [|exact H6]. apply add_newline_ends.
+Qed.
+
+(* encode_dyn succeeds only for a str encoding whose name is ASCII *)
+Lemma encode_dyn_ok : forall t encoding b, encode_dyn t encoding = Ok b ->
+  exists e eb, encoding = WStr e /\ c_enc ascii e = Some eb /\ py_encode t eb = Ok b.
+Proof.
+  intros t encoding b H. unfold encode_dyn in H. destruct encoding; try discriminate H.
+  destruct (c_enc ascii t0) as [eb|] eqn:E; [|discriminate H]. eauto.
+Qed.
+
+(* the newline of text content (declared or detected) is what get_newline_for_type returns for one of the
+   generated line-ending names and the section's encoding; hence non-empty and unbordered (C16's premise) *)
+Lemma text_newline_is_model_newline : forall t le encoding1 nl0 le_out newline_b,
+  choose_newline (CText t) le encoding1 = Ok (nl0, le_out) ->
+  encode_newline nl0 encoding1 = Ok newline_b ->
+  exists e eb lename, encoding1 = WStr e /\ c_enc ascii e = Some eb /\
+    In lename (map fst GenText.newline_formats) /\
+    get_newline_for_type lename (Some eb) = Ok (strip_bom newline_b (enc1_name encoding1)).
+Proof.
+  intros t le encoding1 nl0 le_out newline_b Hc He.
+  assert (Hk : exists lename nl, assoc_get beq lename GenText.newline_formats = Some nl /\ nl0 = inl nl).
+  { unfold choose_newline in Hc. destruct (declared_newline le) as [nl|] eqn:Ed.
+    - unfold declared_newline in Ed. destruct le; try discriminate Ed.
+      destruct (c_enc ascii t0) as [lename|]; [|discriminate Ed]. inversion Hc. eauto.
+    - destruct (WriterFacts.guess_text_cases t) as [Eg|Eg]; rewrite Eg in Hc; inversion Hc; subst.
+      + exists GenText.le_dos, (nl_text GenText.le_dos). split; [vm_compute|]; reflexivity.
+      + exists GenText.le_unix, (nl_text GenText.le_unix). split; [vm_compute|]; reflexivity. }
+  destruct Hk as (lename & nl & Hnl & ->). cbn [encode_newline] in He.
+  apply encode_dyn_ok in He. destruct He as (e & eb & -> & Heb & Hpy).
+  exists e, eb, lename. split; [reflexivity|]. split; [exact Heb|]. split.
+  - eapply TextFacts.assoc_get_beq_in. exact Hnl.
+  - unfold get_newline_for_type, enc_or_ascii. rewrite Hnl, Hpy. cbn [bind enc1_name]. rewrite Heb. reflexivity.
+Qed.
+
+(* 6. indentation: ASCII spaces are put in front of every line AFTER encoding and newline termination;
+   the lines are the kept-ends split of the encoded content on the encoded newline *)
+Theorem C02_indent_every_line : forall s content k le enc inherit body le_out, (0 < k)%Z ->
+  prepare_content s content (WInt k) le enc inherit = Ok (body, le_out) ->
+  exists encoding1 nl0 newline_b content_b lines,
+    eff_enc s enc inherit = Ok encoding1 /\
+    choose_newline content le encoding1 = Ok (nl0, le_out) /\
+    encode_newline nl0 encoding1 = Ok newline_b /\
+    encode_content content encoding1 = Ok content_b /\
+    let newline := strip_bom newline_b (enc1_name encoding1) in
+    split_lines (add_newline newline content_b) newline true = Ok lines /\
+    Forall (fun l => bends newline l = true) lines /\
+    (TextFacts.unbordered newline -> concat lines = add_newline newline content_b) /\
+    body = concat (map (fun l => repeat_b x20 (Z.to_nat k) ++ l) lines).
+Proof.
+  intros s content k le enc inherit body le_out Hk H.
+  apply prepare_content_unfold in H. destruct H as (e1 & nl0 & nb & cb & H1 & H2 & H3 & H4 & _ & H6).
+  unfold finish_content in H6. assert (Ht : wv_truthy (WInt k) = true) by (cbn [wv_truthy]; lia).
+  rewrite Ht in H6. cbn [indent_bytes bind] in H6. step_bind H6. inversion H6; subst body. clear H6.
+  exists e1, nl0, nb, cb, a. do 4 (split; [assumption|]). cbv zeta.
+  split; [exact E|]. split; [|split; [|reflexivity]].
+  - destruct (split_lines_terminated _ _ _ (add_newline_ends _ _) E) as (init & p & ->).
+    apply Forall_forall. intros l Hl. apply in_map_iff in Hl. destruct Hl as (q & <- & _).
+    apply TextFacts.bends_spec. exists q. reflexivity.
+  - intros Hu. destruct (split_lines_ok_ne _ _ _ _ E) as [Hd Hnl].
+    exact (TextFacts.C16b_concat _ _ _ Hd Hnl Hu E).
+Qed.
+
+(* for text content (preambles) the newline is always one of the model's newlines, so the premise of C16 holds:
+   removing the indent from every line gives back exactly the encoded, newline-terminated text *)
+Theorem C02_preamble_indent : forall s t k le enc inherit body le_out, (0 < k)%Z ->
+  prepare_content s (CText t) (WInt k) le enc inherit = Ok (body, le_out) ->
+  exists e eb lename newline content_b lines,
+    eff_enc s enc inherit = Ok (WStr e) /\ c_enc ascii e = Some eb /\
+    In lename (map fst GenText.newline_formats) /\
+    get_newline_for_type lename (Some eb) = Ok newline /\
+    py_encode t eb = Ok content_b /\
+    split_lines (add_newline newline content_b) newline true = Ok lines /\
+    Forall (fun l => bends newline l = true) lines /\
+    concat lines = add_newline newline content_b /\
+    body = concat (map (fun l => repeat_b x20 (Z.to_nat k) ++ l) lines).
+Proof.
+  intros s t k le enc inherit body le_out Hk H.
+  destruct (C02_indent_every_line _ _ _ _ _ _ _ _ Hk H)
+    as (e1 & nl0 & nb & cb & lines & H1 & H2 & H3 & H4 & H5 & H6 & H7 & H8).
+  destruct (text_newline_is_model_newline _ _ _ _ _ _ H2 H3) as (e & eb & lename & -> & Heb & Hin & Hg).
+  exists e, eb, lename, (strip_bom nb (enc1_name (WStr e))), cb, lines.
+  split; [exact H1|]. split; [exact Heb|]. split; [exact Hin|]. split; [exact Hg|].
+  split; [cbn [encode_content] in H4; unfold encode_dyn in H4; rewrite Heb in H4; exact H4|].
+  split; [exact H5|]. split; [exact H6|]. split; [|exact H8].
+  apply H7. apply (TextFacts.model_newlines_unbordered _ _ _ Hg).
+Qed.
